@@ -111,7 +111,7 @@ A buffer is a natural number.  `cur` is the backing array of `p.intermediate` (n
 `pool` the arrays sitting in `intermediatePool`, `held` the arrays referenced by sequences that were
 delivered (or are pending in `p.dcs`) and not yet handed back with `Finish`.  `sync.Pool` is
 modelled as "Get returns some array that was Put and not yet taken, or a new one"
-(`getFrom k`: the k-th pooled array, or a fresh one if there is none). -/
+(label `dispatch (some g)`: the pooled array `g`; `dispatch none`: a new one). -/
 
 structure Own where
   cur : Option Nat := none
@@ -123,7 +123,8 @@ structure Own where
 inductive OwnLabel
   | collect (realloc : Bool)  -- append to p.intermediate (allocates when nil or beyond capacity)
   | clear                     -- p.intermediate = p.intermediate[:0]
-  | dispatch (k : Nat)        -- len > 0: hand `cur` to the sequence; p.intermediate = pool.Get()
+  | dispatch (g : Option Nat) -- len > 0: hand `cur` to the sequence; p.intermediate = pool.Get()
+                              -- (some g: the pooled array g is returned; none: a new one)
   | finish (b : Nat)          -- consumer: Finish(seq) puts the sequence's array back
   deriving DecidableEq, Repr, Inhabited
 
@@ -134,14 +135,23 @@ def Own.step (o : Own) : OwnLabel → Option (Own × Option Nat)
     | some b, false => some (o, some b)                                     -- write into cur
     | _, _ => some ({ o with cur := some o.next, next := o.next + 1 }, some o.next)  -- fresh array
   | .clear => some (o, none)
-  | .dispatch k =>
+  | .dispatch g =>
     match o.cur with
     | none => none                                                          -- len = 0: nothing is transferred
     | some b =>
-      match o.pool[k]? with
-      | some g => some ({ o with cur := some g, pool := o.pool.eraseIdx k, held := b :: o.held }, none)
+      match g with
+      | some g =>
+        if g ∈ o.pool then some ({ o with cur := some g, pool := o.pool.erase g, held := b :: o.held }, none)
+        else none
       | none => some ({ o with cur := some o.next, next := o.next + 1, held := b :: o.held }, none)
   | .finish b =>
     if b ∈ o.held then some ({ o with held := o.held.erase b, pool := b :: o.pool }, none) else none
+
+def Own.run : Own → List OwnLabel → Option Own
+  | o, [] => some o
+  | o, l :: ls =>
+    match Own.step o l with
+    | none => none
+    | some (o', _) => Own.run o' ls
 
 end VaxisModel.Model.ParserRun
